@@ -206,7 +206,9 @@ func (p *Prog) Accesses(fn *ssa.Function) []FieldAccess {
 					case "builtin.append", "builtin.copy":
 						for i, a := range c.Args {
 							if fr, base, ok := fieldPointerLoad(a); ok {
-								add(FieldAccess{Field: fr, Base: base, Write: c.Name == "builtin.copy" && i == 0, Pointee: true, Instr: ins, Via: c.Name})
+								// append writes into the backing array of its first argument whenever that has spare capacity
+								// (cap > len): on a slice other goroutines can reach it is a write, whether or not the result is stored back
+								add(FieldAccess{Field: fr, Base: base, Write: i == 0, Pointee: true, Instr: ins, Via: c.Name})
 							}
 						}
 					}
